@@ -153,9 +153,11 @@ FIRST = st.sampled_from([0x00, 0x01, 0x7F, 0x80, 0x81, 0xBF, 0xC0, 0xC1, 0xDF, 0
 
 @st.composite
 def de_cases(draw):
-    kind = draw(st.sampled_from(["gen", "gen", "first", "prefix", "random"]))
+    kind = draw(st.sampled_from(["gen", "gen", "first", "prefix", "random", "backrefs"]))
     if kind == "gen":
         return bytes.fromhex(ora().call(kind="gen", tape=draw(TAPES), what="bytes")["value_hex"])
+    if kind == "backrefs":
+        return bytes.fromhex(ora().call(kind="gen", tape=draw(TAPES), what="bytes_backrefs")["value_hex"])
     if kind == "first":
         return bytes([draw(FIRST)]) + draw(st.binary(max_size=10))
     if kind == "prefix":
@@ -202,6 +204,25 @@ def test_de(b):
         gp = ("Err", "")
     if gp[0] != exp[0] or (gp[0] == "Ok" and gp[1] != exp[1]):
         raise Violation(f"Program.parse: python {gp} rust {exp[0]} on {b.hex()}", sig="python-stream-decoder-accepts-7-byte-length-prefix" if gp[0] == "Ok" and _has_7byte_prefix(b) else None)
+    # Program.from_bytes accepts more than the classic form (back-references, trailing bytes); whatever it accepts,
+    # bytes(Program) must be the Rust classic serialization of the decoded tree
+    try:
+        pf = Program.from_bytes(b)
+    except ValueError:
+        pf = None
+    if pf is not None and not b.startswith(b"\xfd\xff2026"):
+        ea = rs("deser_backrefs", b)
+        if ea[0] == "Ok" and bytes(pf).hex() != ea[1]:
+            raise Violation(f"bytes(Program.from_bytes(b)) = {bytes(pf).hex()[:200]} but the Rust classic serialization of the decoded tree is {ea[1][:200]} (input {b.hex()})")
+        if ea[0] == "Ok":
+            f = io.BytesIO()
+            pf.stream(f)
+            if f.getvalue().hex() != ea[1]:
+                raise Violation(f"Program.from_bytes(b).stream() differs from the Rust classic serialization (input {b.hex()})")
+            # embedded in a larger tree the cached bytes are spliced in
+            outer = Program.to((pf, pf))
+            if bytes(outer).hex() != "ff" + ea[1] + ea[1]:
+                raise Violation(f"a Program built from Program.from_bytes(b) serializes to a corrupt stream (input {b.hex()})")
     labels = ["de:" + got[0]]
     if b:
         labels.append("first:%02x" % (b[0] if b[0] >= 0x80 else 0))
